@@ -152,6 +152,11 @@ func (m *mergeEval) stmt(st ast.Stmt) {
 			m.fail("store to %s", m.c.ExprStr(x.Lhs[0]))
 			return
 		}
+		if x.Tok == token.DEFINE {
+			if _, inlined := m.c.Subst[m.info.Defs[lid]]; inlined {
+				return // hoisted sub-expression, seen through
+			}
+		}
 		switch m.info.Uses[lid] {
 		case m.endsObj:
 			v, ok := m.boolExpr(x.Rhs[0])
@@ -306,7 +311,9 @@ func (e *Env) RMerge() {
 				continue
 			}
 			m := &mergeEval{c: c, info: info, slot: sl, ends: ends, endsObj: endsObj, outObj: outObj, vObj: info.Implicits[arm]}
+			c.ComputeSubst(arm.Body, nil)
 			m.stmts(arm.Body)
+			c.Subst = nil
 			key := fmt.Sprintf("mergeDecorations(slot=%s, after-line-break=%v)", sl.name, ends)
 			if m.undec != "" {
 				e.Run.Undecided("R-MERGE", key, e.Prog.Pos(arm.Pos()), m.undec)
